@@ -40,7 +40,139 @@ func init() {
 	})
 }
 
+// c07Burst: many fresh active fractions, each hit by several writers at once whose bulks share their (new) tokens, while
+// readers ask queries that rely on the ABSENCE of a token (NOT ...). A document that is visible before every one of its
+// tokens is searchable shows up as a non-matching result. Seeded delays sit at the hooks between the queueing steps.
+func c07Burst(w *h.W, batch int) {
+	r := w.Rng(991)
+	writers, readers := r.Range(2, 6), r.Range(2, 4)
+	rounds := 60
+	if !w.Quick() {
+		rounds = 200
+	}
+	delaySeed := r.U64()
+	desc := map[string]any{"mode": "fresh-fraction-burst", "writers": writers, "readers": readers, "rounds": rounds, "delay_seed": delaySeed}
+	if !w.Begin(desc) {
+		return
+	}
+	ctl := &hk.Ctl{Seed: delaySeed, Delay: map[string]bool{"*": true}, MaxSleep: 100 * time.Microsecond,
+		Long: map[string]time.Duration{"tokenlist.new_tokens.created": 2 * time.Millisecond}}
+	hk.Install(ctl)
+	defer hk.Uninstall()
+	st, err := sdb.Open(w.Sub("burst"), sdb.Opt{Mapping: StoreMapping(), FracSize: 1 << 30, SearchWorkers: 8})
+	if err != nil {
+		w.Violation("C07:store-did-not-start", map[string]any{"error": err.Error()})
+		return
+	}
+	defer st.Stop()
+	var mu sync.Mutex
+	bad, class := "", ""
+	fail := func(c, format string, args ...any) {
+		mu.Lock()
+		if bad == "" {
+			class, bad = c, fmt.Sprintf(format, args...)
+		}
+		mu.Unlock()
+	}
+	failed := func() bool { mu.Lock(); defer mu.Unlock(); return bad != "" }
+	var searches, idsChecked atomic.Int64
+	for round := 0; round < rounds && !failed(); round++ {
+		rr := r.Fork()
+		corp := gen.MakeCorpus(rr, gen.CorpusOpt{N: writers * 3, Vocab: 2, MIDSpread: 50, MaxToks: 2, BaseMID: gen.T0 + uint64(round)*1000, Tag: fmt.Sprintf("u%dr%d", batch, round)})
+		byID := map[model.ID]*model.Doc{}
+		for _, d := range corp.Docs {
+			byID[d.ID] = d
+		}
+		type qi struct {
+			q    *model.Q
+			text string
+		}
+		var qs []qi
+		for i := 0; i < 6; i++ {
+			leaf := corp.Query(rr, gen.QueryOpt{MaxDepth: 0})
+			if i%2 == 0 || leaf.Field == "" {
+				f := leaf.Field
+				if f == "" {
+					f = "k1"
+				}
+				leaf = &model.Q{Op: "lit", Field: f, Pat: "*"}
+			}
+			q := &model.Q{Op: "not", Kids: []*model.Q{leaf}}
+			qs = append(qs, qi{q, q.SeqQL(rr)})
+		}
+		from, to := gen.T0+uint64(round)*1000, gen.T0+uint64(round)*1000+999
+		var wg sync.WaitGroup
+		var done atomic.Int64
+		gate := make(chan struct{})
+		for wi := 0; wi < writers; wi++ {
+			wg.Add(1)
+			go func(docs []*model.Doc) {
+				defer wg.Done()
+				defer done.Add(1)
+				<-gate
+				if err := st.Bulk(docs); err != nil {
+					fail("bulk-error:"+errSig(err.Error()), "burst bulk failed: %v", err)
+				}
+			}(corp.Docs[wi*3 : wi*3+3])
+		}
+		// a bulk is acknowledged before it is indexed: the readers go on until the index workers are idle
+		var idle atomic.Bool
+		wg.Add(1)
+		go func() {
+			defer wg.Done()
+			<-gate
+			for done.Load() < int64(writers) {
+				runtime.Gosched()
+			}
+			st.WaitIdle()
+			idle.Store(true)
+		}()
+		for ri := 0; ri < readers; ri++ {
+			wg.Add(1)
+			go func(ri int) {
+				defer wg.Done()
+				<-gate
+				for k := 0; !idle.Load() && !failed(); k++ {
+					q := qs[(ri+k)%len(qs)]
+					res, err := st.Search(sdb.SearchReq{Query: q.text, SeqQL: true, From: from, To: to, Size: 100})
+					searches.Add(1)
+					if err != nil {
+						fail("search-error:"+errSig(err.Error()), "burst search %q failed: %v", q.text, err)
+						return
+					}
+					for _, id := range res.IDs {
+						d := byID[id]
+						if d == nil {
+							fail("foreign-id", "burst search %q returned %s which is not part of this round", q.text, id)
+							return
+						}
+						if !q.q.Match(d) {
+							fail("wrong-match", "fresh fraction, %d concurrent first bulks: search %q returned %s whose tokens %v do not satisfy it", writers, q.text, id, d.Toks)
+							return
+						}
+						idsChecked.Add(1)
+					}
+				}
+			}(ri)
+		}
+		close(gate)
+		wg.Wait()
+		if !failed() {
+			st.SealAll() // the next round starts on a fresh active fraction
+		}
+	}
+	w.Count("burst_searches", searches.Load())
+	w.Count("burst_ids_checked", idsChecked.Load())
+	w.Count("burst_rounds", int64(rounds))
+	if bad != "" {
+		w.Violation("C07:"+class, map[string]any{"diff": bad, "run": desc})
+		return
+	}
+	w.Held(fmt.Sprintf("burst|w%d|r%d|%d", writers, readers, delaySeed), searches.Load() > int64(rounds))
+}
+
 func runC07(w *h.W, batch int) {
+	defer c07Burst(w, batch)
 	r := w.Rng()
 	runs := 2
 	for ri := 0; ri < runs; ri++ {
@@ -60,7 +192,8 @@ func runC07(w *h.W, batch int) {
 		prev := runtime.GOMAXPROCS(procs)
 		var inflight atomic.Int64
 		var overlapSeal, overlapRotate atomic.Int64
-		ctl := &hk.Ctl{Seed: delaySeed, Delay: map[string]bool{"*": true}, MaxSleep: 150 * time.Microsecond}
+		ctl := &hk.Ctl{Seed: delaySeed, Delay: map[string]bool{"*": true}, MaxSleep: 150 * time.Microsecond,
+			Long: map[string]time.Duration{"tokenlist.new_tokens.created": 3 * time.Millisecond}}
 		ctl.OnAt = func(point string, n int64) {
 			if inflight.Load() > 0 {
 				switch point {
